@@ -235,8 +235,8 @@ def _cseg_layout(repo, col):
             # ceil(<array>.shape[k] / <block>[j]) with j the axis of g
             j = "xyz".index(g[1])
             ok = bool(c) and re.match(
-                r"^CEILDIV\(.+\.shape\[\d\], [A-Za-z_][A-Za-z_0-9.]*\[%d\]\)$"
-                % j, c) is not None
+                r"^CEILDIV\(.*shape.*, [A-Za-z_][A-Za-z_0-9.]*\[%d\]\)$" % j,
+                c) is not None
             col.add(rule + ".grid", fn, "%s = %s" % (g, c), ok,
                     "" if ok else "grid size %s is not ceil(extent / block "
                     "size)" % g, undecided=not ds or c is None)
